@@ -64,6 +64,10 @@ def main():
                  "the longest-mode sub-match choice differs - %d recorded inputs in %s" % (sum(n for r, n in c.items() if r.startswith(("longest/", "copy-then-longest/"))), led))
         add(id="C10-posix", property="C10", ledger=led, rc_prefixes=["posix/"],
             what="CompilePOSIX values differ from regexp.CompilePOSIX on the same inputs as in longest mode - %d recorded inputs in %s" % (sum(n for r, n in c.items() if r.startswith("posix/")), led))
+        for rc, n in sorted(c.items()):
+            if not rc.startswith(("longest/", "copy-then-longest/", "posix/")):
+                add(id="C10-" + re.sub(r"[^A-Za-z0-9]+", "-", rc), property="C10", ledger=led, rcs=[rc],
+                    what="%s: a value searched in default mode before Longest() answers differently from a value on which Longest() was called right after Compile - %d recorded inputs in %s, e.g. %s" % (rc, n, led, ex.get(rc, "")))
     # C11
     led = "known/C11.ledger"
     c, ex = rcs(led)
